@@ -47,17 +47,18 @@ type c04Stage struct {
 }
 
 type c04Case struct {
-	EdDSA  bool
-	Key    keyChoice
-	Stages []c04Stage // chain of resharings
-	Proofs bool
-	Sched  SchedSpec
-	Cut    string // "", "prefix", "silent", "announce-wrong-key"
-	CutAt  int
-	CutWho int
-	Sign   bool
-	Salt   int
-	GenPre []int `json:",omitempty"` // ECDSA, last stage: new members that let the library generate their pre-parameters
+	EdDSA       bool
+	Key         keyChoice
+	Stages      []c04Stage // chain of resharings
+	Proofs      bool
+	Sched       SchedSpec
+	Cut         string // "", "prefix", "silent", "announce-wrong-key"
+	CutAt       int
+	CutWho      int
+	Sign        bool
+	Salt        int
+	OtherGlobal bool  `json:",omitempty"` // process-global curve set to the curve this resharing does not use
+	GenPre      []int `json:",omitempty"` // ECDSA, last stage: new members that let the library generate their pre-parameters
 }
 
 func genC04(edd bool) func(t *rapid.T) c04Case {
@@ -110,6 +111,7 @@ func genC04(edd bool) func(t *rapid.T) c04Case {
 		c.CutWho = rapid.IntRange(0, nodes-1).Draw(t, "cutWho")
 		c.Sign = edd || rapid.IntRange(0, 2).Draw(t, "sign") == 0
 		c.Salt = rapid.IntRange(0, 1<<20).Draw(t, "salt")
+		c.OtherGlobal = rapid.IntRange(0, 2).Draw(t, "otherGlobal") == 0
 		return c
 	}
 }
@@ -284,7 +286,7 @@ func runC04(c c04Case) ev.Outcome {
 	var desc []string
 	for si, st := range c.Stages {
 		last := si == len(c.Stages)-1
-		run := protoRun{Proto: proto, Key: key, Members: st.Old, NewKeys: st.NewKeys, NewT: st.NewT, Proofs: c.Proofs}
+		run := protoRun{Proto: proto, Key: key, Members: st.Old, NewKeys: st.NewKeys, NewT: st.NewT, Proofs: c.Proofs, OtherGlobalCurve: c.OtherGlobal}
 		if si == len(c.Stages)-1 {
 			run.GenPre = c.GenPre
 		}
@@ -460,6 +462,9 @@ func labelC04(out ev.Outcome, c c04Case, desc []string, w *reshareWatch) ev.Outc
 		}
 	}
 	out.Label = fmt.Sprintf("reshare %s %s chain=%s proofs=%v sched=%s cut=%s sign=%v", proto, c.Key, strings.Join(desc, ","), c.Proofs, c.Sched.Class(), cut, c.Sign)
+	if c.OtherGlobal {
+		out.Label += " global-curve=other"
+	}
 	first := c.Stages[0]
 	out.Nontrivial = c.Cut != "" || first.NewT != c.Key.T || len(first.Old) > c.Key.T+1 || c.Proofs || len(c.Stages) > 1
 	return out
